@@ -60,8 +60,7 @@ for fn in sorted(glob.glob(f'{root}/benign/*/meta.json')):
     m = json.load(open(fn)); mr = m['monitor_run']
     others = m.get('other_monitors_quick_exit', {})
     verdict = 'silent' if mr['silent'] else '**alarm**'
-    if m.get('open_question'): verdict = 'own monitor silent; C06 (corrected) and C15 (still) report it - open question ⁴'
-    elif mr.get('exit') == 2: verdict = 'inconclusive (coverage obligations unmet, no alarm) ³'
+    if mr.get('exit') == 2: verdict = 'inconclusive (coverage obligations unmet, no alarm) ³'
     elif m.get('history'): verdict = 'alarm (own or another monitor) or inconclusive at first, monitor corrected ²'; n_alarm += 1
     o = (', '.join(sorted(others)) + ': ' + ('all silent' if all(v == 0 for v in others.values()) else 'see meta.json')) if others else '-'
     brows.append(f"| {m['id']} | {m['property']} | {m['what']} | {verdict} | {o} |")
